@@ -59,6 +59,15 @@ func (c *columnEnum) findOrAdd(v []byte) uint32 {
 		c.data = append(c.data, string(v))
 		return uint32(len(c.data)) - 1
 	})
+
+	// On a hash collision, probe the next slots until we find our string or a free slot
+	for c.readAt(at) != string(v) {
+		target++
+		at, _ = c.seek.LoadOrStore(target, func() uint32 {
+			c.data = append(c.data, string(v))
+			return uint32(len(c.data)) - 1
+		})
+	}
 	return at
 }
 
